@@ -10,7 +10,7 @@ pub proof fn lemma_bp_num_blocks(p: BasePartition)
     assert forall|k1: int, k2: int| 0 <= k1 < q.len() && 0 <= k2 < q.len() && k1 != k2 implies q[k1] != q[k2] by {
         assert(bh_disjoint(p.block@[k1 + 1], p.block@[k2 + 1]));
     }
-    lemma_pigeon(q, p.size as int);
+    lemma_pigeonhole(q, p.size as int);
 }
 
 // swapping two entries keeps a sequence duplicate-free with the same members
